@@ -483,6 +483,60 @@ theorem conc_cap_every_value (c : HsCtrl) (U : List String) (ops : List (String 
   rw [hcells v] at hx
   exact cellsRun_le c.rule c.conc.peek ops hT h0 v x hx
 
+/-! ### how the slot chain drives the controller: `World.exit` and `World.build` apply exactly `concAdjust` -/
+
+theorem hs_lookup_update_same {α : Type} (l : List (String × α)) (k : String) (v : α) :
+    World.lookup (World.update l k v) k = some v := by
+  simp [World.update, World.lookup]
+
+/-- **Exit.** `entry.exit()` lowers, in every hotspot controller of the entry's resource, the in-flight cell of the entry's own
+parameter value (`concAdjust … false`) and touches nothing else of the hotspot state of that resource -/
+theorem exit_adjusts_hotspot (w w' : World) (eid : Nat) (e : Entry)
+    (hfind : w.entries.find? (fun p => p.1 == eid) = some (eid, e)) (hne : w.hsCtrls e.res ≠ [])
+    (h : w.exit eid = some w') :
+    w'.hsCtrls e.res = (w.hsCtrls e.res).map (fun c => c.concAdjust (extractArgs c.rule e.args e.atts) false) := by
+  unfold World.exit at h
+  rw [hfind] at h
+  simp only [Option.some.injEq] at h
+  rw [← h]
+  have hne' : (w.hsCtrls e.res).isEmpty = false := by
+    cases hc : w.hsCtrls e.res with
+    | nil => exact absurd hc hne
+    | cons a t => rfl
+  show ((World.lookup (World.setIfAny w.hs e.res (w.hsCtrls e.res) _) e.res).getD []) = _
+  unfold World.setIfAny
+  rw [hne']
+  simp only [Bool.false_eq_true, if_false]
+  rw [hs_lookup_update_same]
+  rfl
+
+/-- **Admission.** An admitted `build` leaves, for the resource, the controllers as the rule checks left them
+(`runChecks`: every controller's own `check`, i.e. `checkConc` for a concurrency rule) with the in-flight cell of the entry's own
+parameter value raised in each (`concAdjust … true`): together with `exit_adjusts_hotspot` this is `HsCtrl.concOp`, the step the
+every-history theorems (`conc_run_refines_cells`, `conc_cap_every_value`) are about -/
+theorem build_pass_adjusts_hotspot (w : World) (eid : Nat) (res : String) (batch : Nat) (inbound : Bool)
+    (args : Option (List String)) (atts : Option (List (String × String))) (hne : w.hsCtrls res ≠ [])
+    (hp : (w.build eid res batch inbound args atts).2 = .pass) :
+    (w.build eid res batch inbound args atts).1.hsCtrls res =
+      (w.runChecks res batch inbound args atts).hs.map (fun c => c.concAdjust (extractArgs c.rule args atts) true) := by
+  have hne' : (w.hsCtrls res).isEmpty = false := by
+    cases hc : w.hsCtrls res with
+    | nil => exact absurd hc hne
+    | cons a t => rfl
+  unfold World.build at hp ⊢
+  simp only [] at hp ⊢
+  split
+  · show ((World.lookup (World.setIfAny w.hs res (w.hsCtrls res) _) res).getD []) = _
+    unfold World.setIfAny
+    rw [hne']
+    simp only [Bool.false_eq_true, if_false]
+    rw [hs_lookup_update_same]
+    rfl
+  · rename_i hb
+    split at hp
+    · rename_i hpass; exact absurd hpass (by simpa using hb)
+    · rename_i x hx; simp only [] at hp; rw [hp] at hx; exact absurd rfl (hx)
+
 /-- non-vacuity: a fresh concurrency controller (threshold 2, capacity 2) meets the premises for the values a, b -/
 example : ConcInv (HsCtrl.new { id := "h", metric := .concurrency, strategy := .reject, thr := 2, maxCap := 2 }) ["a", "b"] :=
   ⟨by decide, by decide, by simp [HsCtrl.new, Lru.keys], by simp [HsCtrl.new, Lru.keys]⟩
